@@ -18,12 +18,12 @@ Definition d_vty (d : desc) : bytes := match d with (_, _, _, _, _, v) => v end.
 Section TABLES.
 Variable maxvec : N.
 Variables cap_txin cap_txout cap_vecu8 cap_h32 : N.
-Variables pt_ok pk_ok xonly_ok btctx_ok xpub_ok : bytes -> bool.
+Variables pt_ok pk_ok xonly_ok : bytes -> bool.
 Variables Hrip Hsha Hh160 Hh256 : bytes -> bytes.
 Variables Hleaf Hbranch : bytes -> bytes.
 
-Notation vcanon := (vcanon maxvec cap_txin cap_txout cap_vecu8 cap_h32 pt_ok pk_ok xonly_ok btctx_ok xpub_ok Hrip Hsha Hh160 Hh256 Hleaf Hbranch).
-Notation kcanon := (kcanon maxvec cap_txin cap_txout cap_vecu8 cap_h32 pt_ok pk_ok xonly_ok btctx_ok xpub_ok Hrip Hsha Hh160 Hh256 Hleaf Hbranch).
+Notation vcanon := (vcanon maxvec cap_txin cap_txout cap_vecu8 cap_h32 pt_ok pk_ok xonly_ok Hrip Hsha Hh160 Hh256 Hleaf Hbranch).
+Notation kcanon := (kcanon maxvec cap_txin cap_txout cap_vecu8 cap_h32 pt_ok pk_ok xonly_ok Hrip Hsha Hh160 Hh256 Hleaf Hbranch).
 
 Definition whole_key (k : bytes) : option bytes := match k with [] => None | _ => Some k end.
 
@@ -89,6 +89,30 @@ Definition n_outputs : pmap -> N := count_of (blit_of "output_count_vint"%lb).
 
 Definition pset_serialize : pset -> bytes := serialize maxvec Tg Ti To.
 Definition pset_deserialize : bytes -> pres pset := deserialize maxvec Tg Ti To postg posti posto n_inputs n_outputs C07_PSET_CAP.
+
+(* ---- the ELIP-100 / ELIP-102 accessors: BTreeMap::insert / get on the `proprietary` map of the global map (prefix "pset_hww",
+   key data = the asset id) resp. of an input / output map (prefix "pset_liquidex", no key data) ---- *)
+Definition prop_row (ds : list desc) : nat := idx ds (blit_of "proprietary"%lb).
+Definition hww_key (sub : N) (asset : bytes) : bytes := prop_enc maxvec C07_PSET_HWW_PREFIX (n2b sub) asset.
+Definition liquidex_key (sub : N) : bytes := prop_enc maxvec C07_PSET_LIQUIDEX_PREFIX (n2b sub) [].
+Fixpoint upd_nth {A} (n : nat) (f : A -> A) (l : list A) : list A :=
+  match l, n with [], _ => [] | x :: r, O => f x :: r | x :: r, S n' => x :: upd_nth n' f r end.
+Definition set_global_prop (p : pset) (k v : bytes) : pset :=
+  {| p_global := set_keyed Tg (p_global p) (prop_row C07_GLOBAL_FIELDS) k v; p_inputs := p_inputs p; p_outputs := p_outputs p |}.
+Definition set_input_prop (p : pset) (n : nat) (k v : bytes) : pset :=
+  {| p_global := p_global p; p_inputs := upd_nth n (fun m => set_keyed Ti m (prop_row C07_INPUT_FIELDS) k v) (p_inputs p); p_outputs := p_outputs p |}.
+Definition set_output_prop (p : pset) (n : nat) (k v : bytes) : pset :=
+  {| p_global := p_global p; p_inputs := p_inputs p; p_outputs := upd_nth n (fun m => set_keyed To m (prop_row C07_OUTPUT_FIELDS) k v) (p_outputs p) |}.
+Definition add_asset_metadata (p : pset) (asset value : bytes) : pset := set_global_prop p (hww_key C07_PSBT_ELEMENTS_HWW_GLOBAL_ASSET_METADATA asset) value.
+Definition get_asset_metadata (p : pset) (asset : bytes) : option bytes := get_key (p_global p) (prop_row C07_GLOBAL_FIELDS) (hww_key C07_PSBT_ELEMENTS_HWW_GLOBAL_ASSET_METADATA asset).
+Definition add_token_metadata (p : pset) (token value : bytes) : pset := set_global_prop p (hww_key C07_PSBT_ELEMENTS_HWW_GLOBAL_REISSUANCE_TOKEN token) value.
+Definition get_token_metadata (p : pset) (token : bytes) : option bytes := get_key (p_global p) (prop_row C07_GLOBAL_FIELDS) (hww_key C07_PSBT_ELEMENTS_HWW_GLOBAL_REISSUANCE_TOKEN token).
+Definition set_abf_input (p : pset) (n : nat) (abf : bytes) : pset := set_input_prop p n (liquidex_key C07_PSBT_ELEMENTS_LIQUIDEX_IN_ABF) abf.
+Definition get_abf_input (p : pset) (n : nat) : option bytes :=
+  match nth_error (p_inputs p) n with Some m => get_key m (prop_row C07_INPUT_FIELDS) (liquidex_key C07_PSBT_ELEMENTS_LIQUIDEX_IN_ABF) | None => None end.
+Definition set_abf_output (p : pset) (n : nat) (abf : bytes) : pset := set_output_prop p n (liquidex_key C07_PSBT_ELEMENTS_LIQUIDEX_OUT_ABF) abf.
+Definition get_abf_output (p : pset) (n : nat) : option bytes :=
+  match nth_error (p_outputs p) n with Some m => get_key m (prop_row C07_OUTPUT_FIELDS) (liquidex_key C07_PSBT_ELEMENTS_LIQUIDEX_OUT_ABF) | None => None end.
 
 (* PSET equality as the crate defines it: every field compares by value, except that TapTree's PartialEq compares the merkle
    roots only.  On the canonical-bytes representation: equal entries, or two tap_tree entries with the same root. *)
